@@ -89,7 +89,10 @@ def write_cfg(path, spec="Spec", consts=None, invariants=(), properties=(), cons
     if consts:
         lines.append("CONSTANTS")
         for k, v in consts.items():
-            lines.append("  %s = %s" % (k, v))
+            if str(v).startswith("<-"):
+                lines.append("  %s %s" % (k, v))
+            else:
+                lines.append("  %s = %s" % (k, v))
     if invariants:
         lines.append("INVARIANTS " + " ".join(invariants))
     if properties:
@@ -109,7 +112,7 @@ STAT_RE = re.compile(r"(\d+) states generated, (\d+) distinct states found, (\d+
 
 
 def tlc_mc(ctx, module, consts=None, invariants=(), properties=(), workers=8, timeout=1200, constraint=None,
-           view=None, deadlock=False, want_vectors=True, spec="Spec", simulate=None, coverage=False, env=None):
+           view=None, deadlock=False, want_vectors=True, spec="Spec", simulate=None, coverage=False, env=None, expect_violation=None):
     """model-check spec/<module>.tla; returns (vectors, stats). Any TLC error = the specification itself is
     violated = tool/spec error (exit 2), never a verdict about libhaystack."""
     cfg = ctx.fresh(module) + ".cfg"
@@ -130,6 +133,12 @@ def tlc_mc(ctx, module, consts=None, invariants=(), properties=(), workers=8, ti
     if rc == 124:
         raise ToolError("TLC timed out on %s after %ds" % (module, timeout))
     m = STAT_RE.findall(out)
+    if expect_violation:
+        # negative control: the model must be able to see this violation (guards against a vacuous model)
+        if ("Invariant %s is violated" % expect_violation) not in out and expect_violation not in out.split("Error:", 1)[-1][:400]:
+            raise ToolError("negative control: TLC did not report %s on %s:\n%s" % (expect_violation, module, tail_of(out)))
+        ctx.mc_runs.append({"module": module, "constants": consts or {}, "negative_control": expect_violation, "reported": True})
+        return [], out
     ok = ("No error has been found" in out) or (simulate and rc == 0)
     if not ok:
         raise ToolError("TLC reported an error on %s (specification-level):\n%s" % (module, tail_of(out)))
